@@ -75,10 +75,36 @@ def replay(spec):
         for i, s in enumerate(M.get_species_list()):
             if abs(dx[i] - want[s]) > 1e-9:
                 problems.append("d%s/dt = %r, expected %r" % (s, dx[i], want[s]))
+    elif kind == "arguments":
+        import copy
+        shared = {"k": 0.5}
+        rxs = [(["X"], ["Y"], "massaction", shared), (["Y", "Y"], ["Z"], "massaction", shared), (["Z"], [], "hillpositive", {"k": 1.0, "K": 2.0, "n": 2, "s1": "X"}),
+               (["X"], [], "massaction", {"k": 1.0}, "fixed", [], ["Y"], {"delay": 1.0})]
+        sp = ["X", "Y", "Z"]
+        before = copy.deepcopy((sp, rxs))
+        Model(species=sp, reactions=rxs)
+        if (sp, rxs) != before:
+            problems.append("Model(...) changed its arguments: %s -> %s" % (before[1][:2], rxs[:2]))
     elif kind == "missing":
+        which = spec.get("which", "massaction")
+        kw = dict(species=["X", "Y"])
+        table = {
+            "massaction": dict(reactions=[(["X"], ["Y"], "massaction", {"k": "kmiss"})]),
+            "hill": dict(reactions=[(["X"], ["Y"], "hillpositive", {"k": 1.0, "K": "Kmiss", "n": 2, "s1": "X"})]),
+            "general": dict(reactions=[(["X"], ["Y"], "general", {"rate": "kmiss*X"})]),
+            "delay": dict(reactions=[(["X"], [], "massaction", {"k": 1.0}, "fixed", [], ["Y"], {"delay": "taumiss"})]),
+            "rule": dict(rules=[("assignment", {"equation": "Y = kmiss*X"})]),
+            "massaction+declared": dict(reactions=[(["X"], ["Y"], "massaction", {"k": "kmiss"})], parameters=[("zeta_last", 2.0)]),
+            "first-of-two-reactions": dict(reactions=[(["X"], ["Y"], "massaction", {"k": "kmiss"}), (["Y"], [], "massaction", {"k": 0.5})]),
+            "one-of-two-named": dict(reactions=[(["X"], ["Y"], "massaction", {"k": "kmiss"}), (["Y"], [], "massaction", {"k": "k2"})], parameters=[("k2", 0.5)]),
+            "hill-K": dict(reactions=[(["X"], ["Y"], "hillpositive", {"k": "kh", "K": "Kmiss", "n": "nh", "s1": "X"})], parameters=[("kh", 1.0), ("nh", 2.0)]),
+            "delay-then-reaction": dict(reactions=[(["X"], [], "massaction", {"k": 1.0}, "fixed", [], ["Y"], {"delay": "taumiss"}), (["Y"], [], "massaction", {"k": 0.5})]),
+            "rule+later-rule": dict(rules=[("assignment", {"equation": "Y = kmiss*X"}), ("assignment", {"equation": "X = 2*k9"})], parameters=[("k9", 1.0)]),
+        }
+        kw.update(table.get(which, table["massaction"]))
         try:
-            Model(species=["X", "Y"], reactions=[(["X"], ["Y"], "massaction", {"k": "kmiss"})])
-            problems.append("model with a valueless parameter initialised")
+            Model(**kw)
+            problems.append("a model whose definition (%s) refers to a parameter without a value initialises" % which)
         except ValueError:
             pass
     return {"reproduced": bool(problems), "observed": problems[:3], "expected": "stoichiometry / derivative as defined by the reaction list"}
